@@ -259,6 +259,10 @@ def gen_program(seed: int) -> Dict[str, Any]:
         # edits made on an assembled mesh take effect at the next assembly
         ops.append(rs.pick([{"op": "clear"}, {"op": "backport"}]))
     ops.append({"op": "write", "path": DICT, "debug": VTK if rs.chance(0.7) else None})
+    if rs.sub("remesh").chance(0.2):
+        # the same entities in a second Mesh object: must render to the same file
+        ops.append({"op": "remesh"})
+        ops.append({"op": "write", "path": DICT + ".second"})
     return {"ops": ops}
 
 
@@ -403,7 +407,7 @@ def run_once(program: Dict[str, Any], sched: Dict[str, Any]) -> Dict[str, Any]:
     out: Dict[str, Any] = {"outcome": "?", "msg": "", "ref": None}
 
     def before(i, op):
-        if op["op"] == "write":
+        if op["op"] == "write" and op["path"] != DICT + ".second":
             out["ref"] = build_reference(program, it)
 
     it.hooks["before"] = before
@@ -416,7 +420,8 @@ def run_once(program: Dict[str, Any], sched: Dict[str, Any]) -> Dict[str, Any]:
             out["msg"] = str(e)[:300]
     out["dict"] = world.fs.files.get(DICT)
     out["vtk"] = world.fs.files.get(VTK)
-    world.event("outcome", out["outcome"], digest(out["dict"]), digest(out["vtk"]))
+    out["dict2"] = world.fs.files.get(DICT + ".second")
+    world.event("outcome", out["outcome"], digest(out["dict"]), digest(out["vtk"]), digest(out["dict2"]))
     out["log"] = digest(world.log)
     out["decisions"] = world.decisions
     return out
@@ -439,6 +444,18 @@ def oracle(program: Dict[str, Any], run: Dict[str, Any]) -> Tuple[List[Dict[str,
         bad("write-failed", f"a well-formed program ended {run['outcome']}: {run['msg']}")
         return V, stats
     ref: RefMesh = run["ref"]
+    if any(op["op"] == "remesh" for op in program["ops"]):
+        # the same entities in a second Mesh object: that file is judged against the same reference
+        # (not byte-compared with the first: the order of the boundary entries may legitimately differ)
+        stats["second_mesh"] = 1
+        p2 = {"ops": [dict(op, debug=None) if op["op"] == "write" else op for op in program["ops"] if op["op"] != "remesh"]}
+        V2, _ = oracle(p2, dict(run, dict=run["dict2"], vtk=None, dict2=None))
+        for v in V2:
+            v["class"] = "second-mesh:" + v["class"]
+            if not v["key"].startswith("geometry-undefined:copied-sphere"):  # the listed finding is the same finding in any mesh
+                v["key"] = "second-mesh:" + v["key"]
+            v["detail"] = "the same entities in a second Mesh object: " + v["detail"]
+        V += V2
     try:
         d = foam.parse_blockmeshdict(run["dict"])
     except Exception as e:
@@ -821,3 +838,11 @@ def shrink_candidates(rp):
             c["schedules"] = list(rp["schedules"])
             c["schedules"][i] = dict(sc, mode="insertion", seed=0)
             yield c
+
+
+def _first_diff(a: str, b: str) -> str:
+    la, lb = a.split("\n"), b.split("\n")
+    for i, (x, y) in enumerate(zip(la, lb)):
+        if x != y:
+            return f"line {i + 1}: {x.strip()[:90]!r} vs {y.strip()[:90]!r}"
+    return f"{len(la)} vs {len(lb)} lines"
